@@ -12,7 +12,7 @@ ID = "C15"
 LEVEL = "exploration"
 TECHNIQUE = "runtime monitor: seeded samples of real draws vs closed-form cdf/pmf (KS + chi-square, two-stage), declared density vs independent closed form, quadrature, cdf/icdf round trips"
 RULE = ("cases enumerate a fixed grid of (class, parameter) cells reaching every algorithmic branch (gamma shape <1, "
-        "=1, >1; Erlang k = 9/10/11/40; one-/two-sided and tail truncation; triangular modes at the bounds; discrete "
+        "=1, >1; Erlang k = 9/10/11/40/100/101/120/170/172/400; one-/two-sided and tail truncation; triangular modes at the bounds; discrete "
         "distributions at small and large p) followed by seeded random cells in the C14 envelope, plus one 'erf_inv' "
         "case; stage 1: n = 20000 draws, flag at p < 1e-5; stage 2 (flagged only): fresh seed, n = 300000, violation "
         "iff p < 1e-7 again; probabilities are asked again after integral-valued floats / bools / non-integers on the same and on an equal fresh instance; cdf outside the support and inverse cdf at 0, 1 and outside [0, 1]; non-trivial = cell with a non-degenerate distribution whose sample passed through both "
@@ -42,6 +42,9 @@ GRID = [
     ["DistDiscreteUniform", [1, 6]], ["DistDiscreteUniform", [-3, 3]], ["DistDiscreteUniform", [0, 1]], ["DistDiscreteUniform", [0, 999]],
     ["DistErlang", [1.0, 1]], ["DistErlang", [2.0, 2]], ["DistErlang", [0.5, 9]], ["DistErlang", [0.5, 10]], ["DistErlang", [0.5, 11]],
     ["DistErlang", [3.0, 40]], ["DistErlang", [7.5, 5]],
+    # large k: (k-1)! and (x/scale)^(k-1) leave the float range from k ~ 145 / 171 on
+    ["DistErlang", [0.5, 100]], ["DistErlang", [0.5, 101]], ["DistErlang", [0.5, 120]], ["DistErlang", [2.0, 170]], ["DistErlang", [1.0, 172]],
+    ["DistErlang", [0.25, 400]],
     ["DistExponential", [1.0]], ["DistExponential", [0.001]], ["DistExponential", [250.0]],
     ["DistGamma", [0.3, 1.0]], ["DistGamma", [0.5, 2.0]], ["DistGamma", [0.999, 1.0]], ["DistGamma", [1.0, 3.0]], ["DistGamma", [1.001, 1.0]],
     ["DistGamma", [2.0, 0.5]], ["DistGamma", [9.5, 1.0]], ["DistGamma", [20, 10.0]], ["DistGamma", [1.5, 1e-3]],
@@ -95,7 +98,7 @@ def _rand_cell(r):
         lo = r.randint(-50, 50)
         a = [lo, lo + r.randint(1, 60)]
     elif c == "DistErlang":
-        a = [_sc(r), r.randint(1, 40)]
+        a = [_sc(r), r.randint(1, 40) if r.random() < 0.8 else r.randint(41, 400)]
     elif c == "DistExponential":
         a = [_sc(r)]
     elif c == "DistGamma":
